@@ -227,7 +227,7 @@ PLAN['C07'] = {
     'level': 'other',
     'technique': 'contract-based deductive verification (Verus) of the 3D renderer of fidget-raster/src/voxel.rs on its real text - Worker::render_tile (z-descending slab loop with early termination), Worker::render_tile_recurse (early exit on filled pixels, interval fill / skip, simplification, z-descending recursion), Worker::render_tile_pixels (column collection, per-voxel evaluation, first-hit search, column compaction, gradient batch) and render (merge of the root tiles with the depth clamp) - generic over F: Function, the proof text woven line by line into the mechanically extracted and rewritten functions; the evaluator components as trusted stand-ins whose contracts are the claimed properties C03/C04/C05/C01/C02/C14; bounded native contract runner for the whole renderer against the brute-force heightmap',
     'level_text': 'Partial. Proved unbounded (unit voxel; every tile-size list TileSizes::new accepts with root tile <= 4096, every recursion depth and tile position, voxel coordinates below 2^24, grid depth >= 1, whatever the worker held before): for every pixel column of the image the reported pixel is the clamp to the grid depth of a pixel p with: p empty (depth 0) and no voxel of the column inside, or 1 <= p.depth <= Z (Z = top of the last slab of root tiles), the voxel p.depth - 1 is inside the ORIGINAL shape, p.normal is the gradient evaluation of the original shape at that voxel and no voxel between p.depth and Z is inside, or p.depth == Z + 1 and the voxel just above the slabs is inside (the case the property excludes); a column whose highest inside voxel is the top voxel of the grid or above is reported saturated (depth = grid depth, normal (0,0,1)), every other column exactly as found. Early termination (all pixels filled, slab loop break), the per-pixel occlusion skip, interval fills and simplified tapes are inside the proved functions, so they are unobservable by construction of the postcondition. No panic: the assertions `size > 0` and `depth < z`, every try_into().unwrap(), every index into the tile image and the scratch arrays (the get_unchecked_mut writes are checked as ordinary indexing: the SAFETY comment is discharged). ASSUMED, as contracts of stand-ins: interval enclosure on the tile box and validity of the returned trace (C03, C14); the simplified function agrees with its parent in value and in gradient evaluation on the traced box (C04, C05); the bulk evaluators return per sample the (gradient) evaluation of the function on that sample (C01/C02, C05, C14); render_tiles returns one worker output per root tile of the image (rayon workers: not under contract). Bounded only (render3d): the whole renderer against per-voxel Context::eval on 5 shapes x grid sizes x tile lists x transforms x VM/JIT x thread pools.',
-    'level_note': 'Level other: the composition performed by the renderer is proved on its real text, relative to the component properties, which are claimed (and checked) separately. Trusted: Verus+Z3; the stand-ins of unit voxel (ShapeTracingEval / ShapeBulkEval / RenderHandle contracts; nalgebra Point2/Point3/Vector2/Vector3 as plain structs; Image as its data vector; Image::new, VoxelSize accessors, mem::take, slice prefix, From<u32> for VoxelSize as one-line stand-ins); float facts ax_cast_mono, ax_add_cast (voxel coordinates below 2^24 convert exactly and monotonically), ax_cmp; ax_px_default (the derived Default of GeometryPixel has depth 0); verified models of library idioms: find_neg (chunks + enumerate + find), div_ceil_u32; rewrite rules R-all, R-continue, R-revrange, R-unchecked, R-chunks-find, R-enumerate, R-prefix, R-pow, R-tryinto, R-cast, R-fadd, R-opcall, R-ptindex, R-imgindex, R-index, R-minmax, R-from, R-divceil, R-memtake, R-let, R-tail, R-iter-tuple, R-traitfn (each counted in the evidence); the line-by-line weaving of the proof template (difflib alignment: real lines are emitted, never template lines). Not covered: Worker::new / Scratch::new (the scratch sizes are a precondition), render_tiles, cancellation, TileSizesRef::new (stand-in: a suffix of the list), the effects of fidget-raster/src/effects.rs.',
+    'level_note': 'Level other: the composition performed by the renderer is proved on its real text, relative to the component properties, which are claimed (and checked) separately. Trusted: Verus+Z3; the stand-ins of unit voxel (ShapeTracingEval / ShapeBulkEval / RenderHandle contracts; nalgebra Point2/Point3/Vector2/Vector3 as plain structs; Image as its data vector; Image::new, VoxelSize accessors, mem::take, slice prefix, From<u32> for VoxelSize as one-line stand-ins); float facts ax_cast_mono, ax_add_cast (voxel coordinates below 2^24 convert exactly and monotonically), ax_cmp; ax_px_default (the derived Default of GeometryPixel has depth 0); verified models of library idioms: find_neg (chunks + enumerate + find), div_ceil_u32; rewrite rules R-all, R-continue, R-revrange, R-unchecked, R-chunks-find, R-enumerate, R-prefix, R-pow, R-tryinto, R-cast, R-fadd, R-opcall, R-ptindex, R-imgindex, R-index, R-minmax, R-from, R-divceil, R-memtake, R-let, R-tail, R-iter-tuple, R-traitfn (each counted in the evidence); the line-by-line weaving of the proof template (difflib alignment: real lines are emitted, never template lines). Not covered: render_tiles, cancellation, TileSizesRef::new (stand-in: a suffix of the list), the effects of fidget-raster/src/effects.rs.',
     'legs': [leg_verus('voxel'), leg_verus('tiles'), leg_bounded('render3d')],
     'cex': ['render3d'],
     'explanation': 'pv(f, p0, p1, ax, ay, cz, n, zl): the state of one pixel while the slab [cz, cz+n) is worked through from the top down to zl; lemma_pv_step composes a sub-slab below everything done so far (a fill below an already-looked-at sub-slab cannot raise the pixel: the voxel above it would have been found); vox_ok = pv at zl = cz is the postcondition of render_tile_recurse and, with cz = 0 and n = Z, of render_tile; lemma_vox_transfer moves the statement from the simplified function to the original one through agreement on the tile box; render_tile_pixels is proved with ghost maps from pixel numbers to collected columns and from columns to gradient samples (strictly increasing, so compaction never overwrites a column still to be read).',
@@ -235,7 +235,7 @@ PLAN['C07'] = {
                     'C04 + C05 at the call site: RenderHandle::simplify returns a function that agrees with its parent, in value and in gradient evaluation, on the traced box',
                     'C01/C02/C05 + C14 at the call site: the float-slice and grad-slice evaluators return, per sample, the (gradient) evaluation of the function at that sample',
                     'voxel coordinates below 2^24 (f32 conversion exact), grid depth >= 1, usize is 64 bits, root tile <= 4096',
-                    'render_tiles (tile list, per-thread workers, cancellation): stand-in whose contract is one Worker::render_tile output per root tile of the image; TileSizesRef::new: stand-in returning a suffix of the tile-size list - proved in unit tiles; NOT guaranteed by the code: the smallest size is >= 1 (TileSizes::new(&[0]) is Ok); Worker::new / Scratch::new: the scratch array sizes are a precondition'],
+                    'render_tiles (tile list, per-thread workers, cancellation): stand-in whose contract is one Worker::render_tile output per root tile of the image; TileSizesRef::new: stand-in returning a suffix of the tile-size list - proved in unit tiles; NOT guaranteed by the code: the smallest size is >= 1 (TileSizes::new(&[0]) is Ok); Worker::new / Scratch::new: proved in unit voxel (they establish exactly the scratch sizes render_tile requires; cfg.mat() is a stand-in)'],
 }
 del NOT_APPLICABLE['C07']
 
